@@ -1,5 +1,523 @@
-import Compio.Model.IoLoops
+/-
+C11 — I/O helpers are invariant under chunking and transient errors.
+
+Property theorems only (helper lemmas live in Compio/Lemmas). Every statement is unbounded:
+all payloads, all scripts (chunk sizes, positions of `Interrupted`/errors/EOF), all reader
+compositions (`Take`, `BufReader`, in-memory readers, nested in any order), all capacities, all
+pre-existing destination contents. They are about the very functions the model driver
+(lean/Drivers/C11.lean) executes.
+
+Vocabulary (Lemmas/IoLoops.lean):
+  `r.rest`    the bytes a reader composition still has to deliver, in order (buffered bytes first,
+              `Take` limits applied)
+  `r.WF`      every `BufReader` buffer inside satisfies `begin ≤ len ≤ cap` (true initially, kept)
+  `r.Live`    the reader never answers `Ok(0)` to a call offering room while bytes are left:
+              honest script (only positive transfers and `Interrupted`, enough entries), in-memory
+              sources, `Take`, and `BufReader` **with capacity > 0**  (the F12 guard)
+  `w.sink`    what a writer holds: bytes at the inner writer followed by bytes in the `BufWriter`
+  `w.Good`    FIFO writer, or `BufWriter` over a FIFO writer that never answers `Interrupted`
+              (the F17 guard)
+  `overlay d p x`  `d` with `x` laid over it from position `p` (runs past the end if needed)
+-/
+import Compio.Lemmas.IoLoops
+import Compio.Lemmas.MemIo
+
 namespace Compio.Props.C11
 open Compio Compio.Io
-theorem placeholder : overlay [] 0 ([] : Bytes) = [] := by rfl
+
+/-! ## 1. read_exact -/
+
+/-- **read_exact, every reader composition, every script.** The destination is its old content with
+a prefix `t` of the reader's remaining stream laid over its start (nothing lost, duplicated,
+reordered or misplaced; content beyond `t` preserved, see `overlay_preserves_outside`); the reader
+has been consumed by exactly those `t` bytes; the result is `Ok` iff the buffer was filled,
+otherwise `UnexpectedEof` or the script's own error. Never a panic, never out of fuel. -/
+theorem read_exact_correct (fuel : Nat) (r : Rd) (b : VBuf) (hw : r.WF) (hf : b.cap + r.entries < fuel) :
+    ∃ (t : Nat) (res : Res Unit) (r' : Rd),
+      readExact fuel r b = (res, r', ⟨overlay b.data 0 (r.rest.take t), b.cap⟩) ∧
+      t ≤ r.rest.length ∧ t ≤ b.cap ∧ r'.rest = r.rest.drop t ∧ r'.WF ∧
+      ((res = .ok () ∧ t = b.cap) ∨
+        (res = .err .unexpectedEof ∧ t < b.cap ∧ (r.Live → t = r.rest.length)) ∨
+        (∃ k, res = .err (.other k) ∧ k ∈ r.errs ∧ t < b.cap ∧ ¬ r.Live)) := by
+  obtain ⟨t, res, r', h1, h2, h3, h4, h5, h6⟩ :=
+    readExactLoop_spec fuel r b 0 hw (Nat.zero_le _) (Nat.zero_le _) (by omega)
+  refine ⟨t, res, r', h1, h2, by omega, h4, h5, ?_⟩
+  rcases h6 with ⟨a, b'⟩ | ⟨a, b', c⟩ | ⟨k, a, b', c, d⟩
+  · exact Or.inl ⟨a, by omega⟩
+  · exact Or.inr (Or.inl ⟨a, by omega, c⟩)
+  · exact Or.inr (Or.inr ⟨k, a, b', by omega, d⟩)
+
+/-- what "laid over" means byte by byte: positions before `p` and from `p + |x|` on keep the old
+content, positions `p + i` hold `x[i]` -/
+theorem overlay_preserves_outside (d : Bytes) (p : Nat) (x : Bytes) (h : p ≤ d.length) :
+    (∀ i, i < p → (overlay d p x)[i]? = d[i]?) ∧
+    (∀ i, p + x.length ≤ i → (overlay d p x)[i]? = d[i]?) ∧
+    (∀ i, i < x.length → (overlay d p x)[p + i]? = x[i]?) :=
+  ⟨fun i hi => overlay_getElem?_lt d p x i h hi, fun i hi => overlay_getElem?_ge d p x i h hi,
+    fun i hi => overlay_getElem?_mid d p x i h hi⟩
+
+/-- **read_exact from a live reader is decided by the amount of data alone**: `Ok` exactly when the
+reader has at least `cap` bytes left, and then the destination starts with precisely the first `cap`
+bytes; otherwise `UnexpectedEof` after everything that was left has been delivered. -/
+theorem read_exact_live (fuel : Nat) (r : Rd) (b : VBuf) (hw : r.WF) (hl : r.Live)
+    (hf : b.cap + r.entries < fuel) :
+    (b.cap ≤ r.rest.length →
+      ∃ r', readExact fuel r b = (.ok (), r', ⟨overlay b.data 0 (r.rest.take b.cap), b.cap⟩) ∧
+        r'.rest = r.rest.drop b.cap) ∧
+    (r.rest.length < b.cap →
+      ∃ r', readExact fuel r b = (.err .unexpectedEof, r', ⟨overlay b.data 0 r.rest, b.cap⟩) ∧
+        r'.rest = []) := by
+  obtain ⟨t, res, r', h1, h2, h3, h4, h5, h6⟩ := read_exact_correct fuel r b hw hf
+  constructor
+  · intro hc
+    rcases h6 with ⟨a, b'⟩ | ⟨a, b', c⟩ | ⟨k, a, b', c, d⟩
+    · subst a; subst b'
+      exact ⟨r', h1, h4⟩
+    · have := c hl; omega
+    · exact absurd hl d
+  · intro hc
+    rcases h6 with ⟨a, b'⟩ | ⟨a, b', c⟩ | ⟨k, a, b', c, d⟩
+    · omega
+    · have ht := c hl
+      subst a
+      rw [ht, List.take_length] at h1
+      exact ⟨r', h1, by rw [h4, ht]; simp⟩
+    · exact absurd hl d
+
+/-- **chunking independence**: two scripts over the same stream that both let `read_exact` succeed
+produce the same destination and leave the same remaining stream — whatever the chunk sizes and
+wherever the interruptions were. -/
+theorem read_exact_chunking_independent (f1 f2 : Nat) (s : Bytes) (sc1 sc2 : List Outcome) (b : VBuf)
+    (h1 : b.cap + sc1.length < f1) (h2 : b.cap + sc2.length < f2)
+    (ok1 : (readExact f1 (.script s sc1) b).1 = .ok ()) (ok2 : (readExact f2 (.script s sc2) b).1 = .ok ()) :
+    (readExact f1 (.script s sc1) b).2.2 = (readExact f2 (.script s sc2) b).2.2 ∧
+    (readExact f1 (.script s sc1) b).2.1.rest = (readExact f2 (.script s sc2) b).2.1.rest := by
+  obtain ⟨t1, res1, r1, e1, _, _, g1, _, c1⟩ := read_exact_correct f1 (.script s sc1) b trivial h1
+  obtain ⟨t2, res2, r2, e2, _, _, g2, _, c2⟩ := read_exact_correct f2 (.script s sc2) b trivial h2
+  rw [e1] at ok1 ⊢
+  rw [e2] at ok2 ⊢
+  simp only [] at ok1 ok2
+  have ht1 : t1 = b.cap := by
+    rcases c1 with ⟨_, a⟩ | ⟨a, _⟩ | ⟨k, a, _⟩
+    · exact a
+    · rw [ok1] at a; cases a
+    · rw [ok1] at a; cases a
+  have ht2 : t2 = b.cap := by
+    rcases c2 with ⟨_, a⟩ | ⟨a, _⟩ | ⟨k, a, _⟩
+    · exact a
+    · rw [ok2] at a; cases a
+    · rw [ok2] at a; cases a
+  simp only [Rd.rest] at g1 g2 ⊢
+  rw [ht1] at g1
+  rw [ht2] at g2
+  exact ⟨by rw [ht1, ht2], by rw [g1, g2]⟩
+
+/-- **`Interrupted` entries are transparent for read_exact**: removing them from the script changes
+neither the result, nor the destination, nor the remaining stream (only the interruptions still
+waiting in the script are gone). -/
+theorem read_exact_interrupted_transparent (f1 f2 : Nat) (s : Bytes) (sc : List Outcome) (b : VBuf)
+    (h1 : b.cap + sc.length < f1) (h2 : b.cap + (stripIntr sc).length < f2) :
+    readExact f2 (.script s (stripIntr sc)) b =
+      ((readExact f1 (.script s sc) b).1, (readExact f1 (.script s sc) b).2.1.strip,
+        (readExact f1 (.script s sc) b).2.2) :=
+  readExactLoop_strip sc f1 f2 s b b.cap 0 (by omega) (by omega)
+
+/-! ## 2. read_to_end -/
+
+/-- **read_to_end, every reader composition, every script.** A prefix `t` of the reader's remaining
+stream is appended after the existing content (which is preserved); the reader is consumed by
+exactly `t` bytes; the result is `Ok(t)` or the script's own error. Never a panic. -/
+theorem read_to_end_correct (fuel : Nat) (r : Rd) (b : VBuf) (hw : r.WF) (hb : b.data.length ≤ b.cap)
+    (hf : r.rest.length + r.entries < fuel) :
+    ∃ (t : Nat) (res : Res Nat) (r' : Rd) (cap' : Nat),
+      readToEnd fuel r b = (res, r', ⟨b.data ++ r.rest.take t, cap'⟩) ∧
+      t ≤ r.rest.length ∧ b.data.length + t ≤ cap' ∧ r'.rest = r.rest.drop t ∧ r'.WF ∧
+      ((res = .ok t ∧ (r.Live → t = r.rest.length)) ∨
+        (∃ k, res = .err (.other k) ∧ k ∈ r.errs ∧ ¬ r.Live)) := by
+  obtain ⟨t, res, r', cap', h1, h2, h3, h4, h5, h6⟩ :=
+    readToEndLoop_spec fuel r b b.data.length 0 hw (by omega) hb hf
+  refine ⟨t, res, r', cap', h1, h2, h3, h4, h5, ?_⟩
+  rcases h6 with ⟨a, b'⟩ | h
+  · exact Or.inl ⟨by rw [a]; congr 1; omega, b'⟩
+  · exact Or.inr h
+
+/-- **read_to_end from a live reader delivers everything** — in particular through any stack of
+`Take`s and `BufReader`s of non-zero capacity: no silent truncation. -/
+theorem read_to_end_complete (fuel : Nat) (r : Rd) (b : VBuf) (hw : r.WF) (hl : r.Live)
+    (hb : b.data.length ≤ b.cap) (hf : r.rest.length + r.entries < fuel) :
+    ∃ (r' : Rd) (cap' : Nat),
+      readToEnd fuel r b = (.ok r.rest.length, r', ⟨b.data ++ r.rest, cap'⟩) ∧ r'.rest = [] := by
+  obtain ⟨t, res, r', cap', h1, h2, h3, h4, h5, h6⟩ := read_to_end_correct fuel r b hw hb hf
+  rcases h6 with ⟨a, c⟩ | ⟨k, _, _, d⟩
+  · have ht := c hl
+    subst a
+    rw [ht, List.take_length] at h1
+    exact ⟨r', cap', h1, by rw [h4, ht]; simp⟩
+  · exact absurd hl d
+
+/-- a `BufReader` of capacity `cap > 0` around a live reader is live: the completeness theorems
+apply to it. For `cap = 0` this is false: `Cex.C11.f12_bufreader_cap0_counterexample`. -/
+theorem bufreader_live (inner : Rd) (cap : Nat) (hc : 0 < cap) (hl : inner.Live) (hw : inner.WF) :
+    (Rd.buf inner (Buffer.withCapacity cap)).Live ∧ (Rd.buf inner (Buffer.withCapacity cap)).WF ∧
+    (Rd.buf inner (Buffer.withCapacity cap)).rest = inner.rest :=
+  ⟨⟨hc, hl⟩, ⟨hw, Buffer.withCapacity_wf cap⟩, by simp [Rd.rest, Buffer.pending, Buffer.withCapacity]⟩
+
+/-- `Take` hands out at most `limit` bytes: exactly the first `limit` bytes of what is below -/
+theorem take_rest (inner : Rd) (limit : Nat) :
+    (Rd.take inner limit).rest = inner.rest.take limit ∧ (Rd.take inner limit).rest.length ≤ limit ∧
+    (inner.Live → (Rd.take inner limit).Live) ∧ (inner.WF → (Rd.take inner limit).WF) :=
+  ⟨rfl, by simp [Rd.rest, List.length_take]; omega, fun h => h, fun h => h⟩
+
+/-- **`Interrupted` entries are transparent for read_to_end** -/
+theorem read_to_end_interrupted_transparent (f1 f2 : Nat) (s : Bytes) (sc : List Outcome) (b : VBuf)
+    (h1 : s.length + sc.length < f1) (h2 : s.length + (stripIntr sc).length < f2) :
+    readToEnd f2 (.script s (stripIntr sc)) b =
+      ((readToEnd f1 (.script s sc) b).1, (readToEnd f1 (.script s sc) b).2.1.strip,
+        (readToEnd f1 (.script s sc) b).2.2) :=
+  readToEndLoop_strip sc f1 f2 s b b.data.length 0 h1 h2
+
+/-! ## 3. one call: `read`, `append`, `Take`, `BufReader::read` -/
+
+/-- **one `read` on any reader composition** (this is `Take::read`, `BufReader::read`, `Cursor::read`,
+`&[u8]::read` and their nestings): the bytes returned are the next bytes of the remaining stream,
+at most what was offered; an error consumes nothing; there is no panic (the `assert!` in `Take` and
+the assertions of `Buffer::advance` never fire). -/
+theorem read_one_call (r : Rd) (off : Nat) (hw : r.WF) :
+    (∃ bs r', r.read off = (.ok bs, r') ∧ bs = r.rest.take bs.length ∧ bs.length ≤ off ∧
+        r'.rest = r.rest.drop bs.length ∧ r'.WF) ∨
+    (∃ r', r.read off = (.err .interrupted, r') ∧ r'.rest = r.rest ∧ r'.WF) ∨
+    (∃ k r', r.read off = (.err (.other k), r') ∧ r'.rest = r.rest ∧ r'.WF ∧ k ∈ r.errs) := by
+  rcases Rd.read_cases r off hw with ⟨bs, r', h⟩ | ⟨r', h⟩ | ⟨k, r', h⟩
+  · obtain ⟨a, b, c, d, _⟩ := Rd.read_ok hw h
+    exact Or.inl ⟨bs, r', h, a, b, c, d⟩
+  · obtain ⟨a, b, _⟩ := Rd.read_intr hw h
+    exact Or.inr (Or.inl ⟨r', h, a, b⟩)
+  · obtain ⟨a, b, _, d⟩ := Rd.read_other hw h
+    exact Or.inr (Or.inr ⟨k, r', h, a, b, d⟩)
+
+/-- **append**: the bytes of one read land after the existing content -/
+theorem append_correct (r : Rd) (b : VBuf) (hw : r.WF) :
+    (∃ bs r', append r b = (.ok bs.length, r', ⟨b.data ++ bs, b.cap⟩) ∧ bs = r.rest.take bs.length ∧
+        bs.length ≤ b.cap - b.data.length ∧ r'.rest = r.rest.drop bs.length) ∨
+    (∃ e r', append r b = (.err e, r', b) ∧ r'.rest = r.rest) := by
+  unfold append
+  rcases Rd.read_cases r (b.cap - b.data.length) hw with ⟨bs, r', h⟩ | ⟨r', h⟩ | ⟨k, r', h⟩
+  · obtain ⟨a, b', c, _⟩ := Rd.read_ok hw h
+    rw [h]
+    refine Or.inl ⟨bs, r', ?_, a, b', c⟩
+    simp [VBuf.place, overlay_at_end]
+  · obtain ⟨a, _⟩ := Rd.read_intr hw h
+    rw [h]
+    exact Or.inr ⟨_, r', rfl, a⟩
+  · obtain ⟨a, _⟩ := Rd.read_other hw h
+    rw [h]
+    exact Or.inr ⟨_, r', rfl, a⟩
+
+/-! ## 4. write_all, BufWriter, flush -/
+
+/-- **write_all on a good writer, every script.** The writer ends up holding what it held before
+followed by a prefix `t` of the data (nothing lost, duplicated or reordered); `Ok` exactly when
+`t` is everything; otherwise `WriteZero` or the inner writer's own error. Never a panic.
+For a `BufWriter` over a writer that answers `Interrupted` the statement is false
+(`Cex.C11.f17_bufwriter_duplicates_counterexample`). -/
+theorem write_all_correct (fuel : Nat) (w : Wr) (data : Bytes) (hg : w.Good)
+    (hf : data.length + w.entries < fuel) :
+    ∃ (t : Nat) (res : Res Unit) (w' : Wr),
+      writeAll fuel w data = (res, w') ∧ t ≤ data.length ∧ w'.sink = w.sink ++ data.take t ∧ w'.Good ∧
+      ((res = .ok () ∧ t = data.length) ∨ res = .err .writeZero ∨ (∃ k, res = .err (.other k))) := by
+  obtain ⟨t, res, w', h1, h2, h3, h4, h5⟩ := writeAllLoop_spec fuel w data 0 hg (Nat.zero_le _) (by omega)
+  refine ⟨t, res, w', h1, by omega, by simpa using h3, h4, ?_⟩
+  rcases h5 with ⟨a, b, _⟩ | a | a
+  · exact Or.inl ⟨a, by omega⟩
+  · exact Or.inr (Or.inl a)
+  · exact Or.inr (Or.inr a)
+
+/-- **`Interrupted` entries are transparent for write_all** on a scripted writer -/
+theorem write_all_interrupted_transparent (f1 f2 : Nat) (sc : List Outcome) (got : Bytes) (fl sh : Nat)
+    (data : Bytes) (h1 : data.length + sc.length < f1) (h2 : data.length + (stripIntr sc).length < f2) :
+    writeAll f2 (.base (.script got (stripIntr sc) fl sh)) data =
+      ((writeAll f1 (.base (.script got sc fl sh)) data).1,
+        (writeAll f1 (.base (.script got sc fl sh)) data).2.strip) :=
+  writeAllLoop_strip sc f1 f2 got fl sh data 0 (by omega) (by omega)
+
+/-- **one `write` on a good writer** (`BufWriter::write` included): `Ok(n)` takes exactly the first
+`n` bytes; `Interrupted` takes nothing; after any other error the writer holds a prefix of the data
+(possibly non-empty for a `BufWriter`: bytes already buffered when its flush failed). -/
+theorem write_one_call (w : Wr) (data : Bytes) (hg : w.Good) : WrPost w data (w.write data) :=
+  Wr.write_post w data hg
+
+/-- **`flush_to` keeps the unsent tail**: for *every* inner script, a flush moves a prefix `t` of the
+pending bytes to the inner writer, in order, and the buffer keeps exactly the rest; `Ok` iff nothing
+is left; the errors are `WriteZero` and the inner writer's own. -/
+theorem flush_to_keeps_tail (w : BaseWr) (b : Buffer) (hf : w.Fifo) (hw : b.WF) :
+    ∃ t, (flushTo w b).2.1.sink = w.sink ++ b.pending.take t ∧
+      (flushTo w b).2.2.pending = b.pending.drop t ∧ (flushTo w b).2.2.WF ∧ (flushTo w b).2.1.Fifo ∧
+      (((flushTo w b).1 = .ok t ∧ t = b.pending.length) ∨
+        ((flushTo w b).1 = .err .writeZero ∧ t < b.pending.length) ∨
+        ((flushTo w b).1 = .err .interrupted ∧ t < b.pending.length) ∨
+        (∃ k, (flushTo w b).1 = .err (.other k) ∧ k ∈ w.errs ∧ t < b.pending.length)) := by
+  obtain ⟨t, e1, e2, e3, _, e5, _, _, e8⟩ := flushTo_spec w b hf hw
+  refine ⟨t, e1, e2, e3, e5, ?_⟩
+  rcases e8 with ⟨a, b'⟩ | ⟨a, b'⟩ | ⟨a, b', _⟩ | ⟨k, a, b', c⟩
+  · exact Or.inl ⟨by simpa using a, b'⟩
+  · exact Or.inr (Or.inl ⟨a, b'⟩)
+  · exact Or.inr (Or.inr (Or.inl ⟨a, b'⟩))
+  · exact Or.inr (Or.inr (Or.inr ⟨k, a, b', c⟩))
+
+/-- **a retry sends exactly the rest**: whatever happened in a first (failed or not) flush, a
+following successful flush leaves the inner writer with everything, once, in order. -/
+theorem flush_retry_sends_the_rest (w : BaseWr) (b : Buffer) (hf : w.Fifo) (hw : b.WF)
+    (hok : ∃ n, (flushTo (flushTo w b).2.1 (flushTo w b).2.2).1 = .ok n) :
+    (flushTo (flushTo w b).2.1 (flushTo w b).2.2).2.1.sink = w.sink ++ b.pending ∧
+    (flushTo (flushTo w b).2.1 (flushTo w b).2.2).2.2.pending = [] := by
+  obtain ⟨t, e1, e2, e3, e5, _⟩ := flush_to_keeps_tail w b hf hw
+  obtain ⟨t', f1, f2, _, _, f6⟩ := flush_to_keeps_tail _ _ e5 e3
+  obtain ⟨n, hn⟩ := hok
+  have ht' : t' = (flushTo w b).2.2.pending.length := by
+    rcases f6 with ⟨_, a⟩ | ⟨a, _⟩ | ⟨a, _⟩ | ⟨k, a, _⟩
+    · exact a
+    · rw [hn] at a; cases a
+    · rw [hn] at a; cases a
+    · rw [hn] at a; cases a
+  constructor
+  · rw [f1, e1, ht', List.take_length, e2, List.append_assoc, List.take_append_drop]
+  · rw [f2, ht', List.drop_length]
+
+/-- **flush / shutdown on a good writer**: nothing lost or reordered; after `Ok` nothing is buffered -/
+theorem flush_correct (w : Wr) (hg : w.Good) : CtlPost w w.flush ∧ CtlPost w w.shutdown :=
+  ⟨Wr.flush_post w hg, Wr.shutdown_post w hg⟩
+
+/-! ## 5. copy -/
+
+/-- **copy_with_size from any reader composition into a good writer.** The writer receives a prefix
+`tw` of what the reader had, in order; the reader handed out `tr ≥ tw` bytes (the difference is the
+chunk in flight when an error stopped the copy); `Ok(n)` means `n = tr = tw` and nothing is left in
+a `BufWriter`; from a live reader with a non-empty copy buffer (`0 < size`, the F18 guard) `Ok`
+means everything was copied. Never a panic. -/
+theorem copy_correct (fuel : Nat) (r : Rd) (w : Wr) (size : Nat) (hw : r.WF) (hg : w.Good)
+    (hf : r.rest.length + r.entries + w.entries < fuel) :
+    ∃ (tr tw : Nat) (res : Res Nat) (r' : Rd) (w' : Wr),
+      copy fuel r w size = (res, r', w') ∧ tw ≤ tr ∧ tr ≤ r.rest.length ∧
+      r'.rest = r.rest.drop tr ∧ w'.sink = w.sink ++ r.rest.take tw ∧ r'.WF ∧ w'.Good ∧
+      ((res = .ok tr ∧ tw = tr ∧ w'.Flushed ∧ (r.Live → 0 < size → tr = r.rest.length)) ∨
+        res = .err .writeZero ∨ (∃ k, res = .err (.other k))) := by
+  obtain ⟨tr, tw, res, r', w', h1, h2, h3, h4, h5, h6, h7, h8⟩ := copyLoop_spec fuel r w size 0 hw hg hf
+  refine ⟨tr, tw, res, r', w', h1, h2, h3, h4, h5, h6, h7, ?_⟩
+  rcases h8 with ⟨a, b⟩ | a | a
+  · exact Or.inl ⟨by rw [a]; congr 1; omega, b⟩
+  · exact Or.inr (Or.inl a)
+  · exact Or.inr (Or.inr a)
+
+/-! ## 6. `Buffer` -/
+
+/-- `advance` consumes from the front (or panics when asked for more than there is: `none`),
+`reset` empties, `compact_to` moves the unread bytes to the front and keeps exactly them -/
+theorem buffer_ops (b : Buffer) (hw : b.WF) :
+    (∀ n, n ≤ b.pending.length → ∃ b', b.advance n = some b' ∧ b'.pending = b.pending.drop n ∧ b'.WF) ∧
+    (∀ n, b.pending.length < n → b.advance n = none) ∧
+    (b.reset.pending = [] ∧ b.reset.WF ∧ b.reset.cap = b.cap) ∧
+    (∀ c m, (b.compactTo c m).pending = b.pending ∧ (b.compactTo c m).begin = 0 ∧ (b.compactTo c m).WF) := by
+  refine ⟨?_, ?_, ⟨by simp, Buffer.reset_wf b, rfl⟩, ?_⟩
+  · intro n hn
+    have h := Buffer.advance_some b n hw hn
+    exact ⟨_, h, (Buffer.advance_pending b _ n h).1, Buffer.advance_wf b _ n hw h⟩
+  · intro n hn
+    unfold Buffer.advance
+    rw [Buffer.pending_length] at hn
+    rw [if_neg]
+    omega
+  · intro c m
+    exact ⟨(Buffer.compactTo_pending b c m hw).1, (Buffer.compactTo_pending b c m hw).2,
+      Buffer.compactTo_wf b c m hw⟩
+
+/-- `need_flush` is `len > cap * 2 / 3`; a `BufWriter` of capacity 0 never flushes and never takes a
+byte (`write` answers `Ok(0)`, `write_all` `WriteZero`: an honest error, not a finding) -/
+theorem bufwriter_cap0_takes_nothing (w : BaseWr) (data : Bytes) :
+    bufWrite w (Buffer.withCapacity 0) data = (.ok 0, w, Buffer.withCapacity 0) := by
+  simp [bufWrite, flushIfNeeded, Buffer.needFlush, Buffer.withCapacity, Buffer.push]
+
+/-! ## 7. in-memory implementations: reference equalities and "no panic" -/
+
+/-- `[u8]` / `[u8; N]` / `Vec<u8>` `read_at`: for **every** position (beyond the end, beyond `usize`):
+the bytes from `pos` on, clamped to the room; never a panic (the model function is total and has no
+panic outcome; `read_vectored_at` is `memReadVectored` of the same clamped tail, F3 repaired). -/
+theorem read_at_ref (src : Bytes) (pos off : Nat) :
+    readAt src pos off = (src.drop pos).take off ∧
+    (src.length ≤ pos → readAt src pos off = []) ∧
+    (∀ vs, readVectoredAt src pos vs = memReadVectored (src.drop pos) vs) :=
+  ⟨readAt_eq src pos off, fun h => by rw [readAt_eq, List.drop_of_length_le h]; simp,
+    fun vs => by unfold readVectoredAt; rw [drop_min_length]⟩
+
+/-- `Vec<u8>::write_at`: under the exact guard `pos + |data| ≤ isize::MAX` the call succeeds, returns
+`|data|` and the vector is the zero-extended old content with the data laid over it at `pos`; beyond
+the guard the reservation panics ("capacity overflow") — never anything else. -/
+theorem vec_write_at_ref (v : Bytes) (pos : Nat) (bs : Bytes) :
+    (pos + bs.length ≤ isizeMax → vecWriteAt v pos bs = .ok (bs.length, writeRef v pos bs)) ∧
+    (vecWriteAt v pos bs = .panic ∨ vecWriteAt v pos bs = .ok (bs.length, writeRef v pos bs)) :=
+  ⟨vecWriteAt_ref v pos bs, vecWriteAt_total v pos bs⟩
+
+/-- `Vec<u8>::write_vectored_at` (F4 repaired) equals one `write_at` of the concatenation -/
+theorem vec_write_vectored_at_ref (v : Bytes) (pos : Nat) (bufs : List Bytes) (hv : v.length ≤ isizeMax)
+    (hg : pos + bufs.flatten.length ≤ isizeMax) :
+    vecWriteVectoredAt v pos bufs = .ok (bufs.flatten.length, writeRef v pos bufs.flatten) :=
+  vecWriteVectoredAt_ref v pos bufs hv hg
+
+/-- `Vec<u8>::write` / `write_vectored` (F4 repaired): append, for every vector length and data length
+(under the allocation guard); a vector longer than the data is no longer a problem -/
+theorem vec_write_ref (v : Bytes) (bufs : List Bytes) (hg : v.length + bufs.flatten.length ≤ isizeMax) :
+    vecWriteVectored v bufs = .ok (bufs.flatten.length, v ++ bufs.flatten) ∧
+    (∀ bs, vecWrite v bs = (bs.length, v ++ bs)) :=
+  ⟨vecWriteVectored_ref v bufs hg, fun _ => rfl⟩
+
+/-- `[u8]::write_at` / `[u8; N]::write_at`: for **every** position the slice keeps its length, the
+data that fits is laid over it at the clamped position, nothing else changes; never a panic -/
+theorem slice_write_at_ref (a : Bytes) (pos : Nat) (bs : Bytes) :
+    (sliceWriteAt a pos bs).1 = min bs.length (a.length - min pos a.length) ∧
+    (sliceWriteAt a pos bs).2 = overlay a (min pos a.length) (bs.take (sliceWriteAt a pos bs).1) ∧
+    (sliceWriteAt a pos bs).2.length = a.length :=
+  sliceWriteAt_ref a pos bs
+
+/-- `Cursor<Vec<u8>>` / `Cursor<[u8; N]>` as readers: `read` is `read_at` at the position, which then
+advances by what was read (an instance of `read_one_call`: `rest = data.drop pos`) -/
+theorem cursor_read (d : Bytes) (pos off : Nat) :
+    (Rd.cursor d pos).read off = (.ok ((d.drop pos).take off), .cursor d (pos + ((d.drop pos).take off).length)) := by
+  simp [Rd.read, readAt_eq]
+
+
+/-! ## 9. vectored helpers and positional helpers -/
+
+/-- **write_vectored_all on a scripted good writer** is `write_all` of the concatenation: the
+default `write_vectored` (first non-empty view of `buf.slice(needle)`) and `BufWriter::write_vectored`
+take the bytes in order across member boundaries, empty members included. -/
+theorem write_vectored_all_correct (fuel : Nat) (w : Wr) (bufs : List Bytes) (hg : w.Good) (hs : w.Scripted)
+    (hf : bufs.flatten.length + w.entries < fuel) :
+    ∃ (t : Nat) (res : Res Unit) (w' : Wr),
+      writeVectoredAll fuel w bufs = (res, w') ∧ t ≤ bufs.flatten.length ∧
+      w'.sink = w.sink ++ bufs.flatten.take t ∧ w'.Good ∧
+      ((res = .ok () ∧ t = bufs.flatten.length) ∨ res = .err .writeZero ∨ (∃ k, res = .err (.other k))) := by
+  obtain ⟨t, res, w', h1, h2, h3, h4, h5⟩ :=
+    writeVectoredAllLoop_spec fuel w bufs 0 hg hs (Nat.zero_le _) (by omega)
+  refine ⟨t, res, w', ?_, by omega, by simpa using h3, h4, ?_⟩
+  · unfold writeVectoredAll
+    rw [sumNat_map_length]
+    exact h1
+  · rcases h5 with ⟨a, b⟩ | a | a
+    · exact Or.inl ⟨a, by omega⟩
+    · exact Or.inr (Or.inl a)
+    · exact Or.inr (Or.inr a)
+
+/-- **in-memory vectored read into fresh buffers**: the source is cut by capacities, in order; every
+member records exactly its chunk; the concatenation of the members is the prefix that fits.
+(For buffers whose initialised part is not a prefix of the capacities the statement is false:
+`Cex.C11.f19_vectored_read_lost_counterexample`.) -/
+theorem mem_read_vectored_fresh (src : Bytes) (caps : List Nat) :
+    memReadVectored src (VS.plain (fresh caps)) =
+      (.ok (min src.length (sumNat caps)), VS.plain (filled caps src)) ∧
+    ((filled caps src).map MBuf.data).flatten = src.take (sumNat caps) :=
+  ⟨memReadVectored_fresh src caps, filled_flatten caps src⟩
+
+
+/-- **read_vectored_exact into fresh buffers through the default `read_vectored` loop** (scripted
+stream or a `Take` of one; `VectoredBufIter`, `slice_mut`, `VectoredSlice::set_len` modelled
+literally): the buffers end up holding a prefix `t` of the stream cut by capacities, in order, across
+member boundaries and zero-capacity members; the reader is consumed by exactly `t`; `Ok` iff the
+total capacity was filled, else `UnexpectedEof` / the script's error. Never a panic. -/
+theorem read_vectored_exact_correct (fuel : Nat) (r : Rd) (caps : List Nat) (hw : r.WF) (hu : r.UsesDefault)
+    (hf : sumNat caps + r.entries < fuel) :
+    ∃ (t : Nat) (res : Res Unit) (r' : Rd),
+      readVectoredExact fuel r (fresh caps) = (res, r', filled caps (r.rest.take t)) ∧
+      ((filled caps (r.rest.take t)).map MBuf.data).flatten = r.rest.take t ∧
+      t ≤ r.rest.length ∧ t ≤ sumNat caps ∧ r'.rest = r.rest.drop t ∧ r'.WF ∧
+      ((res = .ok () ∧ t = sumNat caps) ∨
+        (res = .err .unexpectedEof ∧ t < sumNat caps ∧ (r.Live → t = r.rest.length)) ∨
+        (∃ k, res = .err (.other k) ∧ k ∈ r.errs ∧ t < sumNat caps ∧ ¬ r.Live)) := by
+  obtain ⟨t, res, r', h1, h2, h3, h4, h5, h6⟩ :=
+    readVectoredExactLoop_spec fuel r caps [] hw hu (Nat.zero_le _) (by simpa using hf)
+  simp only [List.length_nil, Nat.zero_add, List.nil_append] at h1 h3 h6
+  refine ⟨t, res, r', ?_, ?_, h2, h3, h4, h5, h6⟩
+  · unfold readVectoredExact
+    rw [viewCaps_fresh, ← filled_nil]
+    exact h1
+  · rw [filled_flatten, List.take_take, Nat.min_eq_right h3]
+
+/-- **read_exact_at / read_to_end_at on `[u8]` / `Vec<u8>`**, every position (also beyond the end):
+the loops are the cursor loops, so the destination gets exactly the bytes from `pos` on. -/
+theorem read_exact_at_correct (src : Bytes) (b : VBuf) (pos : Nat) :
+    (b.cap ≤ (src.drop pos).length →
+      readExactAt src b pos = (.ok (), ⟨overlay b.data 0 ((src.drop pos).take b.cap), b.cap⟩)) ∧
+    ((src.drop pos).length < b.cap →
+      readExactAt src b pos = (.err .unexpectedEof, ⟨overlay b.data 0 (src.drop pos), b.cap⟩)) := by
+  unfold readExactAt
+  rw [readExactAtLoop_eq_cursor]
+  have h := read_exact_live (b.cap + 1) (.cursor src (pos + 0)) b trivial trivial (by simp [Rd.entries])
+  simp only [Rd.rest, Nat.add_zero] at h
+  unfold readExact at h
+  constructor
+  · intro hc
+    obtain ⟨r', e, _⟩ := h.1 hc
+    simp only [Nat.add_zero]
+    rw [e]
+  · intro hc
+    obtain ⟨r', e, _⟩ := h.2 hc
+    simp only [Nat.add_zero]
+    rw [e]
+
+theorem read_to_end_at_correct (src : Bytes) (b : VBuf) (pos : Nat) (hb : b.data.length ≤ b.cap) :
+    ∃ cap', readToEndAt src b pos = (.ok (src.drop pos).length, ⟨b.data ++ src.drop pos, cap'⟩) := by
+  unfold readToEndAt
+  rw [readToEndAtLoop_eq_cursor]
+  obtain ⟨r', cap', e, _⟩ := read_to_end_complete (src.length + 2) (.cursor src (pos + 0)) b trivial trivial hb
+    (by simp [Rd.rest, Rd.entries, List.length_drop]; omega)
+  simp only [Rd.rest, Nat.add_zero] at e
+  unfold readToEnd at e
+  simp only [Nat.add_zero]
+  rw [e]
+  exact ⟨cap', rfl⟩
+
+/-- `write_all_at` on a `Vec<u8>`: one `write_at` takes everything (under the allocation guard) -/
+theorem write_all_at_vec (v : Bytes) (pos : Nat) (data : Bytes) (hne : data ≠ [])
+    (hg : pos + data.length ≤ isizeMax) :
+    writeAllAt (.vec v) pos data = (.ok (), .vec (writeRef v pos data)) := by
+  have hl : 0 < data.length := List.length_pos_iff.mpr hne
+  unfold writeAllAt
+  cases hd : data.length with
+  | zero => omega
+  | succ n =>
+    simp only [writeAllAtLoop, hd, Nat.zero_lt_succ, if_true, Nat.add_zero, List.drop_zero, AtDst.writeAt,
+      vecWriteAt_ref v pos data hg]
+    simp only [hd, Nat.succ_ne_zero, if_false, Nat.zero_add]
+    cases n with
+    | zero => simp [writeAllAtLoop, hd]
+    | succ m => simp [writeAllAtLoop, hd]
+
+/-! ## 8. non-vacuity: the hypotheses are met by non-trivial data -/
+
+/-- a live, well-formed, three-layer composition: `Take(7)` over `BufReader(3)` over an honest script -/
+example :
+    let r := Rd.take (.buf (.script [1, 2, 3, 4, 5, 6, 7, 8, 9] (List.replicate 12 (.ok 2))) (Buffer.withCapacity 3)) 7
+    r.WF ∧ r.Live ∧ r.rest = [1, 2, 3, 4, 5, 6, 7] := by
+  refine ⟨⟨trivial, Buffer.withCapacity_wf 3⟩, ⟨by decide, ?_, by decide⟩, by decide⟩
+  intro o ho
+  simp [List.replicate] at ho
+  exact Or.inr ⟨2, by omega, ho⟩
+
+/-- ... and `read_to_end` through it delivers exactly the seven bytes, after existing content -/
+example :
+    (readToEnd 60 (Rd.take (.buf (.script [1, 2, 3, 4, 5, 6, 7, 8, 9] (List.replicate 12 (.ok 2)))
+      (Buffer.withCapacity 3)) 7) ⟨[0xF0], 1⟩).1 = .ok 7 ∧
+    (readToEnd 60 (Rd.take (.buf (.script [1, 2, 3, 4, 5, 6, 7, 8, 9] (List.replicate 12 (.ok 2)))
+      (Buffer.withCapacity 3)) 7) ⟨[0xF0], 1⟩).2.2.data = [0xF0, 1, 2, 3, 4, 5, 6, 7] := by decide
+
+/-- a script with an interruption, a short read and an error: `read_exact` stops at the error with
+the two bytes delivered so far in place and the old tail preserved -/
+example :
+    readExact 20 (.script [1, 2, 3, 4] [.intr, .ok 2, .err 3, .ok 2]) ⟨[9, 9, 9, 9], 4⟩ =
+      (.err (.other 3), .script [3, 4] [.ok 2], ⟨[1, 2, 9, 9], 4⟩) := by decide
+
+/-- a good `BufWriter` (inner writer without `Interrupted`) taking data in short writes -/
+example :
+    (Wr.buf (.script [] [.ok 1, .ok 2, .eof, .ok 9] 0 0) (Buffer.withCapacity 4)).Good := by
+  refine ⟨trivial, Buffer.withCapacity_wf 4, ?_⟩
+  simp [BaseWr.NoIntr]
+
 end Compio.Props.C11
